@@ -207,12 +207,14 @@ def dynOk (n numTokens maxPer : Nat) : Bool :=
 def usesDynRule (k : MinterKind) : Bool := !k.isOE && decide (k.flavor ≠ .flex)
 
 /-- instantiate: the only whitelist-related conditions are that `Config {}` parses and is not active -/
+def createOk (k : MinterKind) (wl : Option (Nat × WlKind)) (wlActive pre : Bool) : Bool :=
+  (match wl with
+   | none => true
+   | some (_, wk) => configOk k.flavor wk && !wlActive) && pre
+
 def create (k : MinterKind) (admin lim numTokens maxPer : Nat) (oeNoCap : Bool) (wl : Option (Nat × WlKind))
     (wlActive pre : Bool) : Except Err State :=
-  let ok := match wl with
-    | none => true
-    | some (_, wk) => configOk k.flavor wk && !wlActive
-  if ok && pre then
+  if createOk k wl wlActive pre then
     .ok { kind := k, admin := admin, limit := lim, numTokens := numTokens, maxPerAddr := maxPer, oeNoCap := oeNoCap,
           wl := wl, pub := zero, wlc := zero, stg := fun _ => zero, tot := zero, owned := zero }
   else .error .invalid
